@@ -124,7 +124,7 @@ pub fn gen_case(rng: &mut Rng, i: usize) -> Option<Case> {
             if !g.reduced() || g.cyclic() {
                 return None;
             }
-            let fam = rng.range(1, 6) as u8;
+            let fam = rng.range(1, 7) as u8;
             let mut inputs = vec![];
             for _ in 0..10 {
                 if let Some(w) = random_sentence(&g, rng, 6) {
